@@ -163,13 +163,27 @@ TResult ==
   /\ Adopt(E) /\ l' = l + 1
   /\ UNCHANGED <<pts, metric, k, cut, ti, init, pc, pamvars, tid, lastCost>>
 
+(* "mpistate": a state reassembled from the ranks of a distributed run (C14): it must be
+   self-consistent, keep the number of clusters, and never be worse in cost than the
+   previously recorded state of the same run *)
+TMpiState ==
+  /\ l <= Len(Ev) /\ E.ev = "mpistate"
+  /\ Fail(Bad("Mpi.SelfConsistent", E.ctrIdx # <<>> /\ (\A c \in DOMAIN E.ctrIdx : E.ctrIdx[c] \in Frames) /\
+                   SelfConsistentState(E.ctrIdx, [c \in DOMAIN E.ctrIdx |-> pts[E.ctrIdx[c]]], E.asg, E.dist))
+          \cup Bad("Mpi.ranks-agree", E.ranks_agree)
+          \cup Bad("Mpi.K-constant", lastCost < 0 \/ Len(E.ctrIdx) = Len(ctrIdx))
+          \cup Bad("Mpi.cost-not-worse", lastCost < 0 \/ Cost(E.dist) <= lastCost)
+          \cup Bad("Mpi.stops-on-cue", lastCost >= 0 \/ Len(E.ctrIdx) = Tr.k \/ SeqMax(E.dist) <= cut))
+  /\ Adopt(E) /\ lastCost' = Cost(E.dist) /\ l' = l + 1
+  /\ UNCHANGED <<pts, metric, k, cut, ti, init, pc, pamvars, tid>>
+
 (* an exception escaped *)
 TRaise ==
   /\ l <= Len(Ev) /\ E.ev = "raise"
   /\ Fail({"NoException"}) /\ l' = l + 1
   /\ UNCHANGED <<vars, tid, lastCost>>
 
-TNext == TStart \/ TIter \/ TKCDone \/ TPamStart \/ TProp \/ TSweep \/ TResult \/ TRaise
+TNext == TMpiState \/ TStart \/ TIter \/ TKCDone \/ TPamStart \/ TProp \/ TSweep \/ TResult \/ TRaise
 
 (* state invariants on every recorded state *)
 TInvariant == (pc \in {"loop", "pam", "done"} /\ ctrIdx # <<>> /\ \A c \in DOMAIN ctrIdx : ctrIdx[c] \in Frames
@@ -181,6 +195,6 @@ Report == (l = Len(Ev) + 1) => PrintT(<<"VERDICT", tid, fails>>)
 Matches == \/ (E.ev = "start" /\ pc = "start") \/ (E.ev = "iter" /\ pc = "loop")
            \/ (E.ev = "kcdone" /\ pc \in {"start", "loop"}) \/ (E.ev = "pamstart" /\ pc = "pstart")
            \/ (E.ev = "prop" /\ pc = "pam") \/ (E.ev = "sweep" /\ pc = "pam")
-           \/ (E.ev = "result" /\ pc = "done") \/ E.ev = "raise"
+           \/ (E.ev = "result" /\ pc = "done") \/ E.ev = "raise" \/ E.ev = "mpistate"
 StuckReport == (l <= Len(Ev) /\ ~Matches) => PrintT(<<"STUCK", tid, l>>)
 =============================================================================
